@@ -468,21 +468,21 @@ func truncate(limit int, s string) string {
 	var b strings.Builder
 	count := 0
 	for i, c := range s {
-		if c != utf8.RuneError {
-			count++
-			if count > limit {
-				return s[:i]
+		if c == utf8.RuneError {
+			_, size := utf8.DecodeRuneInString(s[i:])
+			if size == 1 {
+				// Invalid encoding.
+				b.Grow(len(s) - 1)
+				_, _ = b.WriteString(s[:i])
+				s = s[i:]
+				break
 			}
-			continue
+			// A correctly encoded U+FFFD is a character like any other.
 		}
 
-		_, size := utf8.DecodeRuneInString(s[i:])
-		if size == 1 {
-			// Invalid encoding.
-			b.Grow(len(s) - 1)
-			_, _ = b.WriteString(s[:i])
-			s = s[i:]
-			break
+		count++
+		if count > limit {
+			return s[:i]
 		}
 	}
 
